@@ -1,0 +1,33 @@
+//go:build verif
+
+package base58
+
+// Contracts for the deductive verifier in /verif (comment-only; build tag verif).
+
+//@ func base58.Decode
+//@   ensures (exists k :: 0 <= k && k < len(b) && b58[int(b[k])] == 255) ==> len(result) == 0
+//@   ensures freshornil(result)
+//@   modifies nothing
+//@   loop 1 invariant -1 <= i && i < len(b) && answer != nil && j != nil && scratch != nil && fresh(answer) && fresh(j) && fresh(scratch)
+//@   loop 1 invariant forall k :: i < k && k < len(b) ==> b58[int(b[k])] != 255
+//@   loop 1 decreases i + 1
+//@   loop 2 invariant 0 <= numZeros && numZeros <= len(b)
+//@   loop 2 decreases len(b) - numZeros
+
+//@ func base58.Encode
+//@   modifies nothing
+//@   loop 1 invariant x != nil && fresh(x) && *x >= 0 && freshornil(answer)
+//@   loop 1 decreases *x
+//@   loop 2 invariant freshornil(answer)
+//@   loop 3 invariant 0 <= i && i <= alen / 2 && alen == len(answer) && freshornil(answer)
+//@   loop 3 decreases alen / 2 - i
+
+//@ func base58.checksum
+//@   modifies nothing
+
+//@ func base58.CheckEncode
+//@   modifies nothing
+
+//@ func base58.CheckDecode
+//@   ensures err == nil ==> freshornil(result)
+//@   modifies nothing
